@@ -8,27 +8,33 @@ D = os.path.dirname(os.path.abspath(__file__))
 # id -> (class, one-line reason); class: E equivalent / no listed property violated, G genuine gap, T killed by repo tests
 CLS = {
     "m05": ("E", "only `find -l LEVEL` passes includeEmptyLevel=false; the statement puts the listing command with an explicit level option outside"),
-    "m08": ("G", "gap G1: a wrong secret that starts with the right one authenticates (C16: failed authentication grants only the default levels)"),
+    "m08": ("G", "gap G3: a wrong secret that starts with the right one authenticates (C16: failed authentication grants only the default levels)"),
     "m11": ("G", "gap G6: a command line of blanks only reaches `args[0]` of an empty vector (C20: out-of-bounds index on an arbitrary command line)"),
     "m14": ("G", "gap G2: `read PASSIVE-NAME` serves the cached value of a levelled passive message to a client without the level"),
     "m16": ("E", "placement only: a denied hex read is still refused before any cache or bus access (the error code may become ERR_INVALID_ARG for a write message / other circuit; no statement fixes the code)"),
-    "m17": ("G", "gap G7 (bound): `write -c main setp` (4 tokens, no VALUE) indexes args[argPos+1] out of bounds; quick enumerates <=3 tokens and no frame writes without value"),
+    "m17": ("G", "gap G6 (quick bound): `write -c main setp` (4 tokens, no VALUE) indexes args[argPos+1] out of bounds; quick enumerates <=3 tokens and no frame writes without value"),
     "m19": ("E", "`answer \"\"` / `answer b5`: SymbolString::operator[] is bounds-safe and DirectProtocolHandler::setAnswer refuses idLen > 4 (size()-2 wrapped): still answered with an error, no memory error"),
-    "m20": ("G", "gap G7 (alphabet): `find -F` indexes args[argPos] out of bounds; `-F` (like -e -r -w -a -f -v -V -u -U -vv ...) is not in the 44 token alphabet"),
+    "m20": ("G", "gap G6 (alphabet): `find -F` indexes args[argPos] out of bounds; `-F` (like -e -r -w -a -f -v -V -u -U -vv ...) is not in the 44 token alphabet"),
     "m27": ("E", "a `//` inside the path cannot leave the root (root + '//x.js' is inside); the statement's `//` clause is only violated when something outside is served"),
     "m29": ("G", "gap G8: `GET x.js` / `GET -old/x.js` is served from `<root>x.js` / `<root>-old/x.js`, siblings of the html root (C18: served only from inside the configured root)"),
     "m30": ("E", "for pos+2 == length the tested character is the terminating NUL of the std::string (defined, not a hex digit): same result for every input"),
-    "m33": ("G", "gap G5: `\"a  b\"` (two blanks inside quotes) evaluates token[npos] of an empty token: out-of-bounds read (C20); C18 part a generates it but runs unsanitised, C20 has no such token"),
-    "m35": ("G", "gap G9: `GET /a?x?y`: the query reaching executeGet is `x` instead of `x?y` (C18: parsed to exactly what the client encoded; quantifier names '?' in the URI alphabet)"),
+    "m33": ("G", "gap G6: `\"a  b\"` (two blanks inside quotes) evaluates token[npos] of an empty token: out-of-bounds read (C20); C18 part a generates it but runs unsanitised, C20 has no such token"),
+    "m35": ("G", "gap G7: `GET /a?x?y`: the query reaching executeGet is `x` instead of `x?y` (C18: parsed to exactly what the client encoded; quantifier names '?' in the URI alphabet)"),
     "m36": ("E", "differs only when bytes follow the first LF inside one add() (pipelined lines); the statement quantifies over single command lines and the unchanged code has no defined behaviour there either (U: pipelining is unspecified)"),
     "m38": ("E", "the changed branch is only reached with an empty circuit or message name (`get(c,n,f)` does not even store an empty field); such triples are no identifiers"),
     "m39": ("E", "differs only for an empty variable value in the middle of a topic, which no triple of identifiers produces"),
-    "m40": ("G", "gap G3: MqttHandler get/set by topic ignores the configured levels (C16: data sinks apply the same rule); no check executes mqtthandler.cpp"),
-    "m41": ("G", "gap G10: MqttHandler strips the direction wrongly, every /get /set /list topic under a template ending in a variable is no longer mapped back (C18 clause 3); C18 re-implements the stripping in the harness"),
+    "m40": ("G", "gap G5: MqttHandler get/set by topic ignores the configured levels (C16: data sinks apply the same rule); no check executes mqtthandler.cpp"),
+    "m41": ("G", "gap G5: MqttHandler strips the direction wrongly, every /get /set /list topic under a template ending in a variable is no longer mapped back (C18 clause 3); C18 re-implements the stripping in the harness"),
     "m44": ("T", "killed by the repository tests (test_message)"),
-    "m45": ("G", "gap G4: `listen` delivers updates of every level (C16: read on behalf of a client only if ...); the filter sits in MainLoop::run, which no harness executes (NOTES_cmdA lists it as outside the bound)"),
+    "m45": ("G", "gap G10: `listen` delivers updates of every level (C16: read on behalf of a client only if ...); the filter sits in MainLoop::run, which no harness executes (NOTES_cmdA lists it as outside the bound)"),
     "m46": ("G", "gap G6: `GET /x.js\\n\\n` (request line without ` HTTP/x.y`): string::resize(npos) throws std::length_error, uncaught in the connection thread (C20)"),
     "m51": ("E", "no clause of C16/C18/C20 concerned: a hex command with more data bytes than NN is handed to the protocol handler (no crash; wire-format properties C02 are not driven from the command interpreter). U for C02"),
+    "m61": ("G", "gap G9: two conditional variants of one circuit/name with different levels: a client holding only the level of the first stored variant reads the available variant that carries another level (confirmed with the probe)"),
+    "m62": ("G", "gap G9: a user granted level `A` reads a message of level `a` (C16: exactly that level); level and list alphabets contain no case variants"),
+    "m63": ("G", "gap G2: `read -s QQ -h ...` skips the level check (C16: read / sent as hex command only if ...); hex forms are only generated without -c / -s"),
+    "m67": ("E", "the default maximum cache age is fixed by no listed property; the C16 oracle accepts a cached or a bus answer for data older than 300 s as long as the client holds the level"),
+    "m68": ("G", "gap G1: messages that get their level from a default row (`*r,#level`, the form the published configuration files use: `*w,#install`) lose it and are served to everybody; every check assigns levels inline (`circuit#level`) only. Also survives C19 and C08 quick"),
+    "m74": ("G", "gap G4: the second command line on a connection is parsed as previous line + new line (C18 clause 1); every check creates a fresh RequestImpl per request, Connection::run reuses one per connection"),
     "m52": ("G", "gap G2: `write -c CIRCUIT -h ...` skips the level check (C16: written only if ...); hex forms are only generated without -c / -s"),
 }
 
